@@ -30,7 +30,8 @@ fn cstr128(s: &str) -> Option<[i8; 128]> {
 pub fn dispatch(op: &str, a: &[&str]) -> Option<Ans> {
     Some(match op {
         // pwhash <alg 1|2> <outlen> <opslimit> <memlimit> <pwd> <salt>
-        "pwhash" => {
+        // `pwhash_big`: the same request under a name the Lean driver does not evaluate (memory sizes of gigabytes)
+        "pwhash" | "pwhash_big" => {
             let alg: u32 = a[0].parse().unwrap();
             let outlen: usize = a[1].parse().unwrap();
             let ops: u64 = a[2].parse().unwrap();
@@ -66,7 +67,8 @@ pub fn dispatch(op: &str, a: &[&str]) -> Option<Ans> {
                     0 => cfg.with_opslimit(ops),
                     1 => cfg.with_memlimit(mem),
                     2 => cfg.with_hash_length(hl),
-                    _ => cfg.with_salt_length(salt.len()),
+                    // optional 7th argument: the Config's salt_length differs from the length of the salt the caller supplies
+                    _ => cfg.with_salt_length(a.get(6).and_then(|x| x.parse::<usize>().ok()).unwrap_or(salt.len())),
                 };
             }
             let h: Result<VecPwHash, _> = PwHash::hash_with_salt(&pwd, salt.clone(), cfg.clone());
